@@ -2,7 +2,7 @@
 # tools/try_mutant.sh <patch.diff> [check ids...]   (default: all 17)
 # Applies a seeded change to /repo, runs the repository's own tests (guard off) and the
 # quick tier of the given checks against it, prints which checks raise a VIOLATION, and
-# restores /repo. Never leaves the patch applied.
+# restores /repo and the evidence files of the checks it ran (as committed). Never leaves the patch applied.
 set -u
 PATCH="$(readlink -f "$1")"; shift
 # NLV_REPO / NLV_VERIF: a scratch worktree of /repo and a scratch copy of /verif whose harness depends on it (tools/matrix_copy.sh)
@@ -10,7 +10,8 @@ REPO="${NLV_REPO:-/repo}"; VERIF="${NLV_VERIF:-/verif}"
 CHECKS="${*:-C01 C02 C03 C04 C05 C06 C07 C08 C09 C10 C11 C12 C13 C14 C15 C16 C17}"
 cd "$REPO" || exit 2
 if [ -n "$(git status --porcelain --untracked-files=no)" ]; then echo "$REPO is not clean"; exit 2; fi
-trap 'git -C "$REPO" checkout -- . >/dev/null 2>&1' EXIT
+# the evidence files a check writes while a seeded change is applied describe the changed tree: they are put back as committed
+trap 'git -C "$REPO" checkout -- . >/dev/null 2>&1; for c in $CHECKS; do git -C "$VERIF" checkout -- "evidence/$c.json" >/dev/null 2>&1; done' EXIT
 git apply "$PATCH" || { echo "patch does not apply"; exit 2; }
 if [ "${SKIP_TESTS:-0}" != "1" ]; then
   if cargo test --workspace --no-fail-fast --offline >/tmp/try_mutant_tests.log 2>&1; then echo "repo tests: pass"; else echo "repo tests: FAIL"; grep -E "^test .* FAILED|panicked" /tmp/try_mutant_tests.log | head -5; fi
